@@ -4,11 +4,13 @@
       api.go           : Repository.MergeMutable
     Executable definitions only; proofs are in Proofs/Incremental.v.
 
-    Option values are generic (field name -> value) so that the list of HASHED fields can be the one the
-    translator reads from GetHash()/HashOptions() on every run (Generated/HashFields.v).
-    The hash itself is abstract: a function [H] from the list of (normalised) hashed values to a hash value;
-    the theorems assume it injective (SHA-1 collision-freeness + unambiguity of the concatenated encoding). *)
-From ZV Require Import Lib.Base.
+    Option values are generic (field name -> value). What GetHash feeds into the hasher is computed by running the
+    "hash program" [hash_prog] that the translator reads from GetHash()/HashOptions() on every run
+    (Generated/HashFields.v; types in Model/HashProg.v): the ORDERED list of write tokens (format string + the
+    values written), slices element by element in slice order, maps entry by entry in key order.
+    The hash itself is abstract: a function [H] from that token list to a hash value; the theorems assume it
+    injective (SHA-1 collision-freeness + unambiguity of the concatenated formatted writes). *)
+From ZV Require Import Lib.Base Model.HashProg.
 From Coq Require Import String.
 
 Definition str := list N.
@@ -67,9 +69,74 @@ Definition norm (normed : list string) (defaults : list (string * Z)) (f : strin
     end
   else v.
 
-Definition hash_input (normed : list string) (defaults : list (string * Z)) (hashed : list string) (o : opts)
-  : list (option val) :=
-  map (fun f => option_map (norm normed defaults f) (get o f)) hashed.
+(** One write into the hasher: the format string and the values formatted by it. *)
+Inductive token := Tok (fmt : string) (args : list val).
+Definition token_eqb (a b : token) : bool :=
+  match a, b with Tok f x, Tok g y => String.eqb f g && list_eqb val_eqb x y end.
+
+(** Does the `if` guarding a write let it happen for field value [v]? (ill-typed values: the write happens) *)
+Definition guard_holds (g : hguard) (v : val) : bool :=
+  match g, v with
+  | GIntNotZeroNotConst d, VInt z => negb (Z.eqb z 0) && negb (Z.eqb z d)
+  | GStrNonEmpty, VStr [] => false
+  | GLenPositive, VMap [] => false
+  | _, _ => true
+  end.
+
+(** The writes for value [v]: FValue = one write of the value (a slice: all elements in slice order, as %q prints
+    them); FSortedEntries = one write per map entry in key order ([VMap] lists are kept sorted by key: a Go map has
+    no order of its own, so this is its canonical form). FUnknown: the translator could not tell what is written. *)
+Definition value_tokens (form : hform) (fm : string) (v : val) : list token :=
+  match form, v with
+  | FUnknown _, _ => []
+  | FSortedEntries, VMap l => map (fun kn => Tok fm [VStr (fst kn); VInt (Z.of_N (snd kn))]) l
+  | _, _ => [Tok fm [v]]
+  end.
+
+Definition item_tokens (it : hitem) (o : opts) : list token :=
+  match get o (hi_field it) with
+  | None => [Tok (hi_fmt it) []]
+  | Some v => if guard_holds (hi_guard it) v then value_tokens (hi_form it) (hi_fmt it) v else []
+  end.
+
+(** What GetHash writes into the hasher for options [o], in order. *)
+Definition hash_tokens (prog : list hitem) (o : opts) : list token :=
+  List.concat (map (fun it => item_tokens it o) prog).
+
+(** Fields whose zero value GetHash treats like the SetDefaults default: a write guarded by
+    `h.f != 0 && h.f != d` where d is the SetDefaults default of the field (0 and d are both hashed by omission). *)
+Definition normed_of (defaults : list (string * Z)) (prog : list hitem) : list string :=
+  map hi_field (filter (fun it => match hi_guard it, find (fun p => String.eqb (fst p) (hi_field it)) defaults with
+                                  | GIntNotZeroNotConst d, Some (_, d') => Z.eqb d d'
+                                  | _, _ => false
+                                  end) prog).
+
+(** ---- the proof obligation on the generated program (checked by vm_compute in Props/C38.v):
+    every item writes the field value itself under a guard whose "off" values all mean the same effective value, and
+    the tokens of different items cannot be confused (items sharing a format string are all unconditional). *)
+Definition in_strs (f : string) (l : list string) : bool := existsb (String.eqb f) l.
+Definition always_item (it : hitem) : bool :=
+  match hi_guard it, hi_form it with GNone, FValue => true | _, _ => false end.
+Definition item_ok (normed : list string) (defaults : list (string * Z)) (it : hitem) : bool :=
+  match hi_form it, hi_guard it with
+  | FUnknown _, _ => false
+  | _, GUnknown _ => false
+  | FValue, GIntNotZeroNotConst d =>
+      in_strs (hi_field it) normed &&
+      match find (fun p => String.eqb (fst p) (hi_field it)) defaults with Some (_, d') => Z.eqb d d' | None => false end
+  | FValue, GLenPositive => false
+  | FValue, _ => negb (in_strs (hi_field it) normed)
+  | FSortedEntries, GNone => negb (in_strs (hi_field it) normed)
+  | FSortedEntries, GLenPositive => negb (in_strs (hi_field it) normed)
+  | FSortedEntries, _ => false
+  end.
+Definition same_fmt (it j : hitem) : bool := String.eqb (hi_fmt j) (hi_fmt it).
+Definition group_ok (prog : list hitem) (it : hitem) : bool :=
+  let g := filter (same_fmt it) prog in
+  Nat.leb (List.length g) 1 || forallb always_item g.
+Definition prog_ok (normed : list string) (defaults : list (string * Z)) (prog : list hitem) (unrecognised : list string) : bool :=
+  match unrecognised with [] => true | _ => false end &&
+  forallb (item_ok normed defaults) prog && forallb (group_ok prog) prog.
 
 (** zoekt.Repository, the part IndexState / MergeMutable look at. Slices and maps keep Go's nil/non-nil
     distinction where the code is sensitive to it (reflect.DeepEqual on Branches, `r.RawConfig == nil`). *)
@@ -183,10 +250,10 @@ End WithHash.
 (** ---- the hash as a function of the options *)
 Section WithH.
   Variable hashT : Type.
-  Variable H : list (option val) -> hashT.
-  Variables (normed : list string) (defaults : list (string * Z)) (hashed : list string).
+  Variable H : list token -> hashT.
+  Variable prog : list hitem.
 
-  Definition get_hash (o : opts) : hashT := H (hash_input normed defaults hashed o).
+  Definition get_hash (o : opts) : hashT := H (hash_tokens prog o).
 
   (** The repository record a (non-delta, simple-shard) build with options [o] and description [desc] leaves in
       shard 0: newShardBuilder copies the description and sets IndexOptions := GetHash(). *)
@@ -197,6 +264,17 @@ Section WithH.
     DShard fmt feat [build_record o desc].
 End WithH.
 
+(** The hashed part of index.Options as a typed record, and its generic form. *)
+Record hopts := mkHopts {
+  ho_ctags_path : str; ho_ctags_must_succeed : bool; ho_size_max : Z; ho_large_files : list str;
+  ho_disable_ctags : bool; ho_trigram_max : Z; ho_scip_ctags_path : str; ho_language_map : list (str * N)
+}.
+Definition to_opts (r : hopts) : opts :=
+  [("CTagsPath"%string, VStr (ho_ctags_path r)); ("CTagsMustSucceed"%string, VBool (ho_ctags_must_succeed r));
+   ("SizeMax"%string, VInt (ho_size_max r)); ("LargeFiles"%string, VStrs (ho_large_files r));
+   ("DisableCTags"%string, VBool (ho_disable_ctags r)); ("TrigramMax"%string, VInt (ho_trigram_max r));
+   ("ScipCTagsPath"%string, VStr (ho_scip_ctags_path r)); ("LanguageMap"%string, VMap (ho_language_map r))].
+
 (** ---- correspondence runner.
     Hash values are interned by the harness (equal hex strings <-> equal numbers). *)
 Definition crepo := repo N.
@@ -204,11 +282,15 @@ Inductive c38case :=
 | StateCase (d : disk N) (reqhash : N) (desc : crepo) (observed_state : N)
     (* real IndexState on a real index dir: disk = what ReadMetadataPathAlive returned *)
 | HashCase (o1 o2 : opts) (go_hashes_equal : bool)
-    (* GetHash of two option sets: equal hashes <-> equal model hash inputs *)
+    (* GetHash of two option sets: equal hashes <-> equal model token lists *)
 | MergeCase (r x : crepo) (observed : option (bool * crepo))
     (* Repository.MergeMutable *)
-| BuildCase (o : opts) (desc : crepo) (stored : crepo) (stored_hash_is_gethash : bool).
+| BuildCase (o : opts) (desc : crepo) (stored : crepo) (stored_hash_is_gethash : bool)
     (* a real build: the record read back from shard 0 is build_record (hash compared on the Go side) *)
+| ByteCase (r : hopts) (quotes : list (str * list N)) (ref : list N) (ref_sha1_is_gethash quote_shape_ok : bool).
+    (* the BYTES GetHash hashes (checked by Model/HashBytes.v: c38_mismatches_all): [ref] = the bytes a reference
+       encoder on the Go side (strconv only, no fmt) produces for the option record, whose SHA-1 the harness compared
+       with the real GetHash(); [quotes] = strconv.Quote of every string occurring, without the surrounding quotes *)
 
 Definition ostr_list_eqb (a b : option (list (str * str))) : bool :=
   match a, b with
@@ -236,13 +318,13 @@ Definition crepo_eqb (with_hash : bool) (a b : crepo) : bool :=
   && Bool.eqb (r_tombstone a) (r_tombstone b).
 
 Section Runner.
-  Variables (normed : list string) (defaults : list (string * Z)) (hashed : list string) (read_versions : list (N * N)).
+  Variables (prog : list hitem) (read_versions : list (N * N)).
 
   Definition c38_ok (c : c38case) : bool :=
     match c with
     | StateCase d h desc obs => N.eqb (istate_code (index_state_with N N.eqb read_versions h d desc)) obs
     | HashCase o1 o2 eq =>
-        Bool.eqb (list_eqb oval_eqb (hash_input normed defaults hashed o1) (hash_input normed defaults hashed o2)) eq
+        Bool.eqb (list_eqb token_eqb (hash_tokens prog o1) (hash_tokens prog o2)) eq
     | MergeCase r x obs =>
         match merge_mutable r x, obs with
         | None, None => true
@@ -250,17 +332,14 @@ Section Runner.
         | _, _ => false
         end
     | BuildCase o desc stored hash_ok =>
-        hash_ok && crepo_eqb false (build_record N (fun _ => 0%N) normed defaults hashed o desc) stored
+        hash_ok && crepo_eqb false (build_record N (fun _ => 0%N) prog o desc) stored
+    | ByteCase _ _ _ _ _ => true   (* checked by Model/HashBytes.v *)
     end.
   Definition c38_mismatches_with (cs : list c38case) : list N := bad_indexes c38_ok cs.
 End Runner.
 
 (** ---- instantiation with the lists generated from the checked tree *)
 From ZV Require Generated.HashFields.
-(** Fields whose zero value GetHash treats like the SetDefaults default: GENERATED — the translator recognises the guard
-    `h.f != 0 && h.f != <const equal to the SetDefaults default of F>` (0 and the default are both hashed by omission).
-    Any other guard shape yields the empty list, and the HashCase correspondence (generator uses 0, the default and other
-    values) then reports the difference. *)
-Definition normed_fields : list string := HashFields.zero_is_default_fields.
+Definition normed_fields : list string := normed_of HashFields.int_defaults HashFields.hash_prog.
 Definition c38_mismatches : list c38case -> list N :=
-  c38_mismatches_with normed_fields HashFields.int_defaults HashFields.hashed_fields HashFields.read_versions.
+  c38_mismatches_with HashFields.hash_prog HashFields.read_versions.
